@@ -41,7 +41,11 @@ func driveCases(r *run, gen func(emit func(c caseT)), exec func(r *run, c caseT)
 				continue
 			}
 			// replay lines are cases.tsv lines: id, op, args...
+			wd := caseWatchdog()
 			exec(r, caseT{op: parts[1], args: parts[2:]})
+			if wd != nil {
+				wd.Stop()
+			}
 		}
 		return
 	}
